@@ -218,8 +218,15 @@ class ConcurrentExecutor(ABC, Generic[CallableType, ResultType]):
 
         def resubmitter(executable_with_state: ExecutableWithState) -> None:
             """Resubmit a timed suspended task."""
-            execution_state.create_checkpoint()
-            submit_task(executable_with_state)
+            try:
+                execution_state.create_checkpoint()
+                submit_task(executable_with_state)
+            except BaseException as e:  # noqa: BLE001
+                # This runs on the timer thread: raising (e.g. BackgroundThreadError because checkpointing
+                # failed) would only kill that thread and leave execute() waiting forever for a branch that
+                # is never resubmitted. Hand the error to execute() and wake it.
+                self._fatal_exception = e
+                self._completion_event.set()
 
         thread_executor = ThreadPoolExecutor(max_workers=max_workers)
         try:
